@@ -1,9 +1,13 @@
 #!/bin/bash
-# Build the framework from files on disk only (offline).
+# Build the framework from files on disk only (offline). Run once after a fresh restore.
 set -e
-cd /verif/lean
-lake build Fan2go drv 2>&1 | tail -5
-cd /verif
 export GOFLAGS=-mod=mod GOPROXY=off GOSUMDB=off GOTOOLCHAIN=local
+cd /verif
+python3 -m vlib.factgen                      # regenerate lean/Fan2go/Generated/Facts.lean from /repo
+[ -f vlib/accessgen.py ] && python3 -m vlib.accessgen || true
+cd /verif/lean
+lake build Fan2go drv 2>&1 | tail -3
+cd /verif
 python3 vlib/gobuild.py harness
+python3 vlib/gobuild.py fan2go
 echo setup-ok
